@@ -58,9 +58,13 @@ fn mutants(base: &MShred, other_sig: [u8; 64], thorough: bool) -> Vec<Mutant> {
     let n = base.p().data.len();
     let step = if thorough { 1 } else { 7 };
     for b in (0..n).step_by(step) {
-        let mut m = base.clone();
-        m.p_mut().data[b] ^= 1 << (b % 8);
-        push("payload-bit-flipped", m, false);
+        // thorough: every bit of every payload byte; quick: one bit of every 7th byte
+        let bits: Vec<usize> = if thorough { (0..8).collect() } else { vec![b % 8] };
+        for bit in bits {
+            let mut m = base.clone();
+            m.p_mut().data[b] ^= 1 << bit;
+            push("payload-bit-flipped", m, false);
+        }
     }
     let mut m = base.clone();
     m.p_mut().data.pop();
@@ -73,9 +77,13 @@ fn mutants(base: &MShred, other_sig: [u8; 64], thorough: bool) -> Vec<Mutant> {
     push("payload-emptied", m, false);
     // proof
     for e in 0..base.path.len() {
-        let mut m = base.clone();
-        m.path[e][e % 32] ^= 0x40;
-        push("proof-element-flipped", m, false);
+        // thorough: every byte of every proof element; quick: one byte per element
+        let bytes: Vec<usize> = if thorough { (0..32).collect() } else { vec![e % 32] };
+        for byte in bytes {
+            let mut m = base.clone();
+            m.path[e][byte] ^= 0x40;
+            push("proof-element-flipped", m, false);
+        }
         let mut m = base.clone();
         m.path.remove(e);
         push("proof-element-dropped", m, false);
@@ -98,9 +106,12 @@ fn mutants(base: &MShred, other_sig: [u8; 64], thorough: bool) -> Vec<Mutant> {
     // signature
     let sstep = if thorough { 1 } else { 5 };
     for b in (0..64).step_by(sstep) {
-        let mut m = base.clone();
-        m.sig[b] ^= 0x01;
-        push("signature-byte-flipped", m, false);
+        let bits: Vec<u8> = if thorough { (0..8).collect() } else { vec![0] };
+        for bit in bits {
+            let mut m = base.clone();
+            m.sig[b] ^= 1 << bit;
+            push("signature-byte-flipped", m, false);
+        }
     }
     let mut m = base.clone();
     m.sig = other_sig;
@@ -156,8 +167,16 @@ pub fn run(tier: Tier) -> i32 {
     let mut classes: BTreeMap<String, usize> = BTreeMap::new();
     let mut passing: Vec<(usize, usize, String, MShred)> = Vec::new();
     let thorough = tier == Tier::Thorough;
-    let idxs: Vec<usize> = if thorough { vec![0, 1, 15, 31, 32, 33, 62, 63] } else { vec![0, 31, 32, 63] };
-    let bases: Vec<(&str, &SignedBlock, usize)> = vec![("two-slice/0", &block, 0), ("two-slice/1-last", &block, 1), ("single-slice", &single, 0)];
+    let idxs: Vec<usize> = if thorough { (0..64).collect() } else { vec![0, 31, 32, 63] };
+    // thorough: a slice close to the size limit as well (1 KiB per shred)
+    let big = sign_block(9, &[SliceSpec { parent: Some((Slot::new(7), single.hash.clone())), txs: (0..60u8).map(|t| vec![t; 500]).collect(), raw: None }], &sk);
+    let mut bases: Vec<(&str, &SignedBlock, usize)> = vec![("two-slice/0", &block, 0), ("two-slice/1-last", &block, 1), ("single-slice", &single, 0)];
+    if thorough {
+        bases.push(("single-slice-30KB", &big, 0));
+        for s in big.shreds[0].iter() {
+            genuine.insert(wincode::serialize(s.as_shred()).expect("ser"));
+        }
+    }
     for (bname, blk, si) in &bases {
         for &i in &idxs {
             let vs = &blk.shreds[*si][i];
